@@ -32,7 +32,7 @@ STATES = ["none", "connected", "ready", "waiting_dwa", "disconnecting", "closed"
           "two_conns_first_dpr", "two_conns_first_closed", "two_conns_second_closed",
           # a watchdog request of the node is outstanding when the peer's DPR arrives; the DWA comes afterwards
           "disconnecting_late_dwa"]
-PLANS = ["prompt", "late", "dup", "unknown", "wrong_e2e", "wrong_hbh", "never"]
+PLANS = ["prompt", "late", "dup", "unknown", "wrong_e2e", "wrong_hbh", "never", "dup3", "late2"]
 CALLBACKS = ["default", "first", "last", "seeded"]
 R1, R2 = "verif.example", "other.example"
 
@@ -215,7 +215,7 @@ class Case:
                 elig.append(e)
                 res = {}
                 results.append(res)
-                timeout = 0.06 if plan in ("late", "never") else 20
+                timeout = 0.06 if plan in ("late", "late2", "never") else 20
                 t = threading.Thread(target=app_request, args=(self.w.apps[tag], realm, timeout, res, f"c;{ci}"))
                 threads.append(t)
             for t in threads:
@@ -303,18 +303,25 @@ class Case:
                 if plan == "wrong_hbh":
                     sp.send(M.cca(n, p["realm"], app=f.h.app, hbh=f.h.hbh ^ 0x40000, e2e=f.h.e2e))
                     h.settle()
-                if plan in ("prompt", "dup", "unknown", "wrong_e2e", "wrong_hbh"):
+                if plan in ("prompt", "dup", "dup3", "unknown", "wrong_e2e", "wrong_hbh"):
                     sp.send(ans)
-                    if plan == "dup":
+                    if plan in ("dup", "dup3"):
                         h.settle()
                         threads[ci].join(10)
                         sp.send(ans)
-                elif plan == "late":
+                        if plan == "dup3":
+                            # every copy nobody waits for goes to the handler, not only the first
+                            h.settle()
+                            sp.send(ans)
+                elif plan in ("late", "late2"):
                     late.append((ci, sp, ans))
             h.settle()
             for ci, sp, ans in late:
                 threads[ci].join(10)   # the caller has timed out: only now does the answer arrive
                 sp.send(ans)
+                if self.callers[ci][2] == "late2":
+                    h.settle()
+                    sp.send(ans)
             h.settle()
             for t in threads:
                 t.join(10)
@@ -328,7 +335,7 @@ class Case:
                 if threads[ci].is_alive():
                     self.witness("caller.still_blocked", ctx)
                     continue
-                if plan in ("prompt", "dup", "unknown", "wrong_e2e", "wrong_hbh"):
+                if plan in ("prompt", "dup", "dup3", "unknown", "wrong_e2e", "wrong_hbh"):
                     a = r.get("answer")
                     if a is None:
                         self.witness("caller.answer_not_received", ctx)
@@ -337,7 +344,7 @@ class Case:
                 else:
                     if r.get("exc") != "TimeoutError":
                         self.witness("caller.no_timeout", ctx)
-                want_handled = 1 if plan in ("late", "dup") else 0
+                want_handled = {"late": 1, "dup": 1, "dup3": 2, "late2": 2}.get(plan, 0)
                 if len(mine) != want_handled:
                     self.witness(f"unexpected_answer.handler_calls.{plan}", {**ctx, "calls": [e["app"] for e in mine]})
                 elif mine and mine[0]["app"] != tag:
